@@ -104,6 +104,11 @@ SPECS = [
     # which moves everything behind the reference: known finding D26)
     dict(id='S-Define-reserved-after-entity', text='A<i tal:define="a \'x&amp;y\'; __x e1">x</i>B',
          expect_error={'class': 'TranslationError', 'token': '__x'}, serves=['C11']),
+    # ... also in a `global` clause (which takes another path through the code generator)
+    dict(id='S-Define-global-reserved', text='A<i tal:define="b e2; global __x e1">x</i>B',
+         expect_error={'class': 'TranslationError', 'token': '__x'}, serves=['C05', 'C11']),
+    dict(id='S-Define-global-tuple-reserved', text='A<i tal:define="global (a, rcontext) e1">x</i>B',
+         expect_error={'class': 'TranslationError', 'token': 'rcontext'}, serves=['C05', 'C11']),
     dict(id='S-OnError-Define',
          text='A<div tal:on-error="e11"><p tal:define="a e1">%s</p></div>B' % H1,
          own_names=['a', 'error'],
